@@ -14,7 +14,14 @@ below are the meaning given to the Python operations the translator recognises:
   `self._par[i]`                `parent s.par i`      (out-of-range read totalised as self-parent, as in the model)
   `self._siz[i]`                `sizAt s.siz i`       (out-of-range read totalised as 0, as in the model)
   `self._par[i] = v`            `{ s with par := s.par.set i v }`
-  `set(<generator>)`            `setOf <list>`        (duplicates collapse; iteration order is not modelled)
+  `set(<generator>)`            `setOf <list>`        (duplicates collapse; iteration order is not modelled: first occurrence)
+  `self._elts[i]`               `eltAt s.elts i`
+  `d[k]` (local dict)           `dlookup d k`         (`none` = KeyError: these reads are NOT guarded in the source)
+  `dict((k, v) for i, r in enumerate(l))`   `dictOf ((enumerate l).map …)`  (a later pair with the same key wins)
+  `[[] for _ in l]`             `l.map (fun _ => [])`
+  `L[i].append(e)` (local list of lists)    `bucketAppend L i e`  (`none` = IndexError)
+  `for e in self._elts: body`   a fold over `s.elts` carrying (state, the mutated local container), `none` once raised
+  `self._siz[a] < self._siz[b]` in `union`  `sizCmp (sizAt …) (sizAt …)`, `sizCmp` extracted with the operator the source uses
   `raise …`                     `none`                (the exception class is recorded in a descriptor table)
   `while c: body`               recursion on a fuel argument, called with fuel `s.par.length`
                                 (`find_terminates_source`: the loop exits by its own condition within that fuel)
@@ -32,6 +39,28 @@ def dset (d : Dict) (k v : Nat) : Dict := (k, v) :: d
 def sizAt (siz : List Nat) (i : Nat) : Nat := siz.getD i 0
 
 def setOf (l : List Nat) : List Nat := l.eraseDups
+
+/-- `self._elts[i]` (the only reads are guarded by `0 <= i < _next`; totalised as 0) -/
+def eltAt (l : List Nat) (i : Nat) : Nat := l.getD i 0
+
+/-- `d[k]` on a LOCAL dict (not guarded in the source): `none` = KeyError -/
+def dlookup (d : Dict) (k : Nat) : Option Nat := d.lookup k
+
+def enumerateFrom : Nat → List Nat → List (Nat × Nat)
+  | _, [] => []
+  | k, a :: l => (k, a) :: enumerateFrom (k + 1) l
+
+/-- `enumerate(l)`: the pairs `(position, value)` -/
+def enumerate (l : List Nat) : List (Nat × Nat) := enumerateFrom 0 l
+
+/-- `dict(pairs)`: a later pair with the same key wins -/
+def dictOf (ps : List (Nat × Nat)) : Dict := ps.foldl (fun d p => dset d p.1 p.2) []
+
+/-- `L[i].append(e)` on a local list of lists: `none` = IndexError -/
+def bucketAppend : List (List Nat) → Nat → Nat → Option (List (List Nat))
+  | [], _, _ => none
+  | b :: bs, 0, e => some ((b ++ [e]) :: bs)
+  | b :: bs, i + 1, e => (bucketAppend bs i e).map (fun r => b :: r)
 
 /-- the attributes of a `UnionFind` instance, as `__init__` creates them -/
 structure St where
